@@ -90,6 +90,11 @@ def gen_generation(rnd, index, ending):
             gen["payloads"].append({"id": "cross%d" % i, "flavour": "trio", "cleanup": {"kind": "none"},
                                     "program": [["sleep", 0.02], ["exec_loop", "xs%d" % i, 400, rnd.choice([0.0, 0.005])]]})
             script.append(["adopt", "cross%d" % i])
+        # ... and a thread payload inside a long synchronous query of the asyncio runner when the end comes
+        gen["payloads"].append({"id": "xq", "flavour": "asyncio", "executed": True, "cleanup": {"kind": "none"},
+                                "program": [["sleep", 0.1], ["sleep", 0.1], ["sleep", 0.1], ["return", "none"]]})
+        gen["payloads"].append({"id": "tquery", "flavour": "threading", "cleanup": {"kind": "none"}, "program": [["sleep", 0.02], ["exec_loop", "xq", 100, 0.0, "strict"]]})
+        script.append(["adopt", "tquery"])
     if population in ("sleepers", "mixed", "submitters"):
         for i in range(rnd.randint(1, 4)):
             flavour = rnd.choice(common.COROUTINE)
